@@ -59,7 +59,8 @@ func (p *Party) Calculate() error {
 
 func (p *Party) normalizers() tax.Normalizers {
 	if r := p.RegimeDef(); r != nil {
-		return tax.Normalizers{r.Normalizer}
+		// the regime may not define a normalizer
+		return tax.Normalizers{}.Append(r.Normalizer)
 	}
 	return nil
 }
